@@ -370,4 +370,24 @@ theorem c14_pack_header_parser_follows_source (bs : Bytes) (h60 : bs.length = 60
     (Generated.packHeaderParse bs).map' (fun r => tupleToHeader r.1) = PackHeader.decode bs :=
   gen_packHeaderParse bs h60
 
+/-- **The reader's decoding of the four kind headers and of the pack locator follows the source**: their
+    `parse` functions, translated on every run into sequential parsers, equal the model's `decode` functions on
+    every block of the size the reader hands them. -/
+theorem c14_kind_headers_parser_follows_source :
+    (∀ bs : Bytes, bs.length = 60 →
+      (Generated.containerHeaderParse bs).map' (fun r => (⟨r.1.1, r.1.2.1, r.1.2.2⟩ : ContainerHeader)) = ContainerHeader.decode bs) ∧
+    (∀ bs : Bytes, bs.length = 60 →
+      (Generated.contentHeaderParse bs).map' (fun r => (⟨r.1.1, r.1.2.1, r.1.2.2.1, r.1.2.2.2.1, r.1.2.2.2.2⟩ : ContentHeader)) =
+        ContentHeader.decode bs) ∧
+    (∀ bs : Bytes, bs.length = 60 →
+      (Generated.directoryHeaderParse bs).map'
+          (fun r => (⟨r.1.1, r.1.2.1, r.1.2.2.1, r.1.2.2.2.1, r.1.2.2.2.2.1, r.1.2.2.2.2.2.1, r.1.2.2.2.2.2.2⟩ : DirectoryHeader)) =
+        DirectoryHeader.decode bs) ∧
+    (∀ bs : Bytes, bs.length = 60 →
+      (Generated.manifestHeaderParse bs).map' (fun r => (⟨r.1.1, (r.1.2.1 / 65536, r.1.2.1 % 65536), r.1.2.2⟩ : ManifestHeader)) =
+        ManifestHeader.decode bs) ∧
+    (∀ bs : Bytes, bs.length = 32 →
+      (Generated.packLocatorParse bs).map' (fun r => (⟨r.1.1, r.1.2.1, r.1.2.2⟩ : PackLocator)) = PackLocator.decode bs) :=
+  ⟨gen_containerHeaderParse, gen_contentHeaderParse, gen_directoryHeaderParse, gen_manifestHeaderParse, gen_packLocatorParse⟩
+
 end Jubako
